@@ -8,6 +8,9 @@ CONSTANTS
   MaxOpen = 2
   MaxSets = 0
   MaxTicks = 2
+  MaxTraced = 2
+  ExitKinds = {FALSE, TRUE}
+  LateKinds = {"exit", "trace"}
   MaxRules = 0
   Triggers = {0, 1, 2}
 VIEW view
